@@ -419,6 +419,12 @@ fn oracle(spec: &Spec, id: u16, sink: Sink, r: &Result<Result<Built, &'static st
 // ---------------------------------------------------------------- driver
 
 fn do_case(rep: &mut Report, spec: &Spec, id: u16, sink: Sink, src: &str) {
+    do_case_opt(rep, spec, id, sink, src, true)
+}
+
+/// `send_model = false`: the implementation is still run and judged by the property oracle;
+/// only the (slow, list based) model request is left out.
+fn do_case_opt(rep: &mut Report, spec: &Spec, id: u16, sink: Sink, src: &str, send_model: bool) {
     let r = run_impl(spec, id, sink);
     let args = spec.args();
     let cap_tok = match (&r, sink) {
@@ -462,7 +468,11 @@ fn do_case(rep: &mut Report, spec: &Spec, id: u16, sink: Sink, src: &str) {
         let short_req: String = req.chars().take(200).collect();
         rep.sample(json!({"request": short_req, "impl": ans}));
     }
-    rep.expect(req, ans);
+    if send_model {
+        rep.expect(req, ans);
+    } else {
+        rep.count("oracle-only(large case: model request left out for speed)");
+    }
 }
 
 fn parse_sink(s: &str) -> Sink {
@@ -686,21 +696,20 @@ fn main() {
                 Spec::Wms(es) => es.len() > 400,
                 _ => false,
             };
+        let mut send_model = true;
         if quad {
             quad_budget -= 1;
             if quad_budget < 0 {
-                rep.count("skipped-large(for model speed)");
-                continue;
+                send_model = false;
             }
         }
         if weight > 0 {
             big_budget -= 1;
             if big_budget < 0 {
-                rep.count("skipped-large(for model speed)");
-                continue;
+                send_model = false;
             }
         }
-        do_case(&mut rep, &spec, id, sink, "random");
+        do_case_opt(&mut rep, &spec, id, sink, "random", send_model);
     }
     rep.write(&args);
 }
